@@ -61,8 +61,9 @@ def gen_program(rng):
 # decidable harness-side guards for the classes the textual model cannot see
 
 def continuation_lines(text):
-    """1-based physical lines that are NOT the start of a logical line because the previous line
-    ends in a backslash, or that lie inside a multi-line string token."""
+    """1-based physical lines for which the (repaired) add-ignores step cannot work: lines that lie
+    inside a multi-line string token (a comment line above them becomes part of the string), and
+    lines that themselves end in a backslash (no trailing comment possible)."""
     bad = set()
     lines = text.split("\n")
     try:
@@ -72,8 +73,8 @@ def continuation_lines(text):
     except (tokenize.TokenError, SyntaxError, IndentationError):
         pass
     for i, l in enumerate(lines, 1):
-        if l.rstrip("\n").endswith("\\") and i + 1 <= len(lines):
-            bad.add(i + 1)
+        if l.rstrip().endswith("\\"):
+            bad.add(i)
     return bad
 
 
@@ -114,17 +115,23 @@ def iteration_job(job):
             r2 = lines_impl.run_case(t2, cfg)
             probes.append({"line": i + 1, "comment": fl[i], "out": r2["out"], "error": r2["error"]})
     return {"texts": texts, "first": results[0], "last_out": results[-1]["out"], "last_error": results[-1]["error"],
-            "ended": ended, "probes": probes, "runs": [{"raw": x["raw"], "error": x["error"]} for x in results]}
+            "ended": ended, "probes": probes, "runs": [{"raw": x["raw"], "error": x["error"], "first_code": (x["out"][0][0] if x["out"] else None)} for x in results]}
 
 
-def pool(fn, jobs, workers=6):
+def _dispatch(job):
+    kind, payload = job
+    return iteration_job(payload) if kind == "A" else fix_job(payload)
+
+
+def pool(jobs, workers=8):
+    """jobs: [("A", iteration payload) | ("B", fix payload)] — one process pool for both streams."""
     import concurrent.futures as cf
     import multiprocessing as mp
 
     if len(jobs) <= 2:
-        return [fn(j) for j in jobs]
+        return [_dispatch(j) for j in jobs]
     with cf.ProcessPoolExecutor(max_workers=workers, mp_context=mp.get_context("fork")) as ex:
-        return list(ex.map(fn, jobs, chunksize=2))
+        return list(ex.map(_dispatch, jobs, chunksize=1))
 
 
 # ---------------------------------------------------------------------------
@@ -192,6 +199,41 @@ ASSIGN_TEMPLATES = [
     (["try:", "    a{k} = b{k} = int(x)", "except ValueError as e{k}:", "    b{k} = 0"], "b{k}"),
 ]
 FIX_TEMPLATES += [("unused_variable", b, r) for b, r in ASSIGN_TEMPLATES]
+FIX_TEMPLATES += [
+    ("unused_variable", ["ü{k} = x + 1"], "x"),
+    ("unused_variable", ["u{k} = 'é ☃'"], "x"),
+    ("use_fstrings", ["s{k} = 'é %s ☃' % x"], "s{k}"),
+    ("missing_f", ["s{k} = 'é {{x}}'"], "s{k}"),
+    ("unused_variable", ["def inner{k}():", "    v{k} = x", "    return y", "print(inner{k}())"], "x"),
+    ("unused_variable", ["class C{k}:", "    def m(self):", "        v{k} = x", "        return y", "print(C{k}().m())"], "x"),
+    ("unused_variable", ["lam{k} = [i for i in range(2) for j{k} in range(2)]"], "lam{k}"),
+    ("too_many_positional_args", ["t{k} = (callee(1, 2, 3, 4, 5, 6, 7, 8, 9, x, y),", "        x)"], "t{k}"),
+]
+# replace_node regenerates the whole enclosing statement from a copy of its AST: the fixable node sits
+# inside rich statements (dict displays with **, calls with * / **, lambdas and defs with keyword-only /
+# positional-only parameters with and without defaults, f-strings, conditional expressions,
+# comprehensions, walrus, star targets, decorators, annotations, multi-line forms)
+RICH_TEMPLATES = [
+    ("use_fstrings", ["o{k} = {{**{{'a': y}}, 'label': 'v %s' % x, **{{'b': 1}}}}"], "o{k}"),
+    ("use_fstrings", ["o{k} = {{", "    **{{'a': y}},", "    'label': 'v %s' % x,", "    **{{'b': 1}},", "}}"], "o{k}"),
+    ("use_fstrings", ["f{k} = lambda *, sep='-', word: 'p %s' % x + sep + word"], "f{k}(word='w')"),
+    ("use_fstrings", ["f{k} = lambda a, /, b=2, *c, d, e=5, **g: ('q %s' % x, a, b, c, d, e, g)"], "f{k}(1, d=4)"),
+    ("use_fstrings", ["t{k} = callee(*[1, 2, 3], *[4, 5, 6, 7, 8, 9], **{{'j': 's %s' % x, 'k': y}})"], "t{k}"),
+    ("use_fstrings", ["c{k} = ['c %s' % i for i in range(2) if i or x]"], "c{k}"),
+    ("use_fstrings", ["w{k} = ('w %s' % x) if (n{k} := x) else 'none'"], "w{k}, n{k}"),
+    ("use_fstrings", ["a{k}, *b{k} = 'u %s' % x, 1, 2"], "a{k}, b{k}"),
+    ("use_fstrings", ["g{k} = f'{{x}} and ' + 'p %s' % y"], "g{k}"),
+    ("use_fstrings", ["@(lambda fn, *, tag='t %s' % x: fn)", "def d{k}(*, q, r=2):", "    return q, r"], "d{k}(q=1)"),
+    ("use_fstrings", ["def an{k}(a: 'n %s' % x = 1, *, b, **kw):", "    return a, b, kw"], "an{k}(b=2)"),
+    ("use_fstrings", ["print({{**{{'a': 1}}, 'm': 'x %s' % x}}, *[1, 2], sep='|', **{{'end': '!\\n'}})"], "x"),
+    ("missing_f", ["v{k} = {{**{{'a': 1}}, 'm': 'x = {{x}}'}}"], "v{k}"),
+    ("missing_f", ["h{k} = lambda *, pre='>', suf: pre + 'x = {{x}}' + suf"], "h{k}(suf='<')"),
+    ("too_many_positional_args", ["o{k} = {{**{{'a': 1}}, 'r': callee(1, 2, 3, 4, 5, 6, 7, 8, 9, x, y)}}"], "o{k}"),
+    ("too_many_positional_args", ["l{k} = lambda *, z: callee(1, 2, 3, 4, 5, 6, 7, 8, 9, x, z)"], "l{k}(z=0)"),
+    ("unused_variable", ["o{k} = {{**{{'a': 1}}, 'r': [0 for q{k} in range(2)]}}"], "o{k}"),
+    ("unused_variable", ["l{k} = lambda *, z: [z for q{k} in range(2)]"], "l{k}(z=1)"),
+]
+FIX_TEMPLATES += RICH_TEMPLATES
 # the replacement attached to unused_ignore reports (remove the comment line / strip the comment)
 FIX_TEMPLATES += [
     ("unused_ignore", ["# static analysis: ignore[bad_unpack]", "print(x)"], "x"),
@@ -242,6 +284,20 @@ def gen_fix_program(rng, k, forced=None):
         lines.append("    return None")
     else:
         lines.append("    return " + ", ".join(rets) + (", z" if pre == ["    z = y"] else ""))
+    ctx = rng.choice(["plain", "plain", "tabs", "method", "nested", "decorated"]) if forced is None else "plain"
+    i0 = lines.index("def target(x, y):")
+    fn = lines[i0:]
+    if ctx == "tabs":
+        fn = [("\t" * ((len(l) - len(l.lstrip(" "))) // 4) + l.lstrip(" ")) if l.strip() else l for l in fn]
+        if any("\'\'\'" in l for l in fn) or any((len(l) - len(l.lstrip(" "))) % 4 for l in lines[i0:]):
+            fn = lines[i0:]
+    elif ctx == "method":
+        fn = ["class Holder:", "    @staticmethod"] + ["    " + l if l.strip() else l for l in fn] + ["target = Holder.target"]
+    elif ctx == "nested":
+        fn = ["def outer():"] + ["    " + l if l.strip() else l for l in fn] + ["    return target", "target = outer()"]
+    elif ctx == "decorated":
+        fn = ["def deco(fn):", "    return fn", "@deco"] + fn
+    lines = lines[:i0] + fn
     if forced is None and rng.random() < 0.35:
         # the fixable statement is the last statement of the file (with / without a final newline)
         body3, ret3 = rng.choice(ASSIGN_TEMPLATES[:11])
@@ -300,20 +356,68 @@ def _behaviour(text):
     return out
 
 
-def intended_text(code, text, lineno=None):
+def intended_text(code, text, lineno=None, col=None):
     """The program the fix is meant to produce, as far as behaviour goes: for missing_f the string
-    literal on the reported line becomes an f-string; the other fixes keep the behaviour."""
-    if code != "missing_f":
+    literal at the reported position becomes an f-string; the other fixes keep the behaviour."""
+    if code != "missing_f" or lineno is None:
         return text
-    out = []
-    for i, l in enumerate(text.split("\n"), 1):
-        if lineno is None or i == lineno:
-            if " = '" in l and "{" in l:
-                l = l.replace(" = '", " = f'", 1)
-            elif ' = "' in l and "{" in l:
-                l = l.replace(' = "', ' = f"', 1)
-        out.append(l)
+    out = text.split("\n")
+    l = out[lineno - 1]
+    if col is not None and col < len(l) and l[col] in "'\"":
+        out[lineno - 1] = l[:col] + "f" + l[col:]
     return "\n".join(out)
+
+
+# (ii) "the only semantic change is the intended one" as an AST statement: old and new tree may differ
+# only inside the sub-tree of the node the diagnostic was reported on
+REPLACED_NODE = {"use_fstrings": ast.BinOp, "missing_f": ast.Constant, "too_many_positional_args": ast.Call}
+
+
+def ast_diff_roots(a, b):
+    """Minimal sub-trees of `a` on which the two trees differ (fields only, positions ignored)."""
+    roots = []
+
+    def walk(x, y):
+        if type(x) is not type(y):
+            roots.append(x)
+            return
+        for f in x._fields:
+            vx, vy = getattr(x, f, None), getattr(y, f, None)
+            if isinstance(vx, list) and isinstance(vy, list):
+                if len(vx) != len(vy):
+                    roots.append(x)
+                    return
+                for ex, ey in zip(vx, vy):
+                    if isinstance(ex, ast.AST) and isinstance(ey, ast.AST):
+                        walk(ex, ey)
+                    elif ex != ey:
+                        roots.append(x)
+                        return
+            elif isinstance(vx, ast.AST) and isinstance(vy, ast.AST):
+                walk(vx, vy)
+            elif isinstance(vx, ast.AST) or isinstance(vy, ast.AST) or vx != vy:
+                roots.append(x)
+                return
+
+    walk(a, b)
+    return roots
+
+
+def ast_change_outside_target(code, old_text, new_text, lineno, col):
+    """None if every difference between the two trees lies inside the node reported at (lineno, col)
+    (of the kind the fix replaces); otherwise a description of a difference outside it."""
+    kind = REPLACED_NODE.get(code)
+    if kind is None:
+        return None
+    old, new = ast.parse(old_text), ast.parse(new_text)
+    cands = [n for n in ast.walk(old) if isinstance(n, kind) and getattr(n, "lineno", None) == lineno and getattr(n, "col_offset", None) == col]
+    if not cands:
+        return None
+    inside = {id(n) for n in ast.walk(cands[0])}
+    for r in ast_diff_roots(old, new):
+        if id(r) not in inside:
+            return f"{type(r).__name__} at line {getattr(r, 'lineno', '?')} changed outside the replaced {kind.__name__}: {ast.dump(r)[:160]}"
+    return None
 
 
 def removal_facts(text, applied):
@@ -436,7 +540,7 @@ def run(tier: str, replay: str | None = None):
                 fix_cases.append((c["code"], c["fix_lines"]))
             else:
                 iter_cases.append((c["text"], c["cfg"]))
-        n_iter = 70 if tier == "quick" else 400
+        n_iter = 90 if tier == "quick" else 500
         for i in range(n_iter):
             iter_cases.append(("\n".join(gen_program(rng)) + "\n", BASE_CFG))
         for i in range(3 if tier == "quick" else 12):
@@ -444,11 +548,12 @@ def run(tier: str, replay: str | None = None):
             iter_cases.append((f"import os\ndef f{k}():\n    print(undef_{k})  {IGNORE}[bad_unpack]\n    return os.sep\n", UNUSED_ON_CFG))
         for i, t in enumerate(FIX_TEMPLATES):
             fix_cases.append(gen_fix_program(rng, i, forced=t))
-        for i in range(110 if tier == "quick" else 900):
+        for i in range(160 if tier == "quick" else 1100):
             fix_cases.append(gen_fix_program(rng, 100 + i))
 
     # ---- part A: the add-ignores iteration --------------------------------
-    res_a = pool(iteration_job, [(t, c, LIMIT) for t, c in iter_cases])
+    res_all = pool([("A", (t, c, LIMIT)) for t, c in iter_cases] + [("B", fc) for fc in fix_cases])
+    res_a, res_b = res_all[: len(iter_cases)], res_all[len(iter_cases):]
     # the model is run one step at a time on the raw stream of *that* run (the order in which the checker
     # reports e.g. unused variables may differ between runs: set iteration, C10's subject), and the
     # "raw stream moves down with its lines" assumption is checked separately as a multiset equality
@@ -478,7 +583,13 @@ def run(tier: str, replay: str | None = None):
                 # where was the comment inserted?  first differing line
                 nl = seq[j + 1].splitlines()
                 ins = next((k for k, (a, b) in enumerate(zip(lines + [None], nl), 1) if a != b), None)
-                if ins is not None and len(nl) == len(lines) + 1:
+                if ins is not None and len(nl) == len(lines) and r["runs"][j].get("first_code") not in ("unused_ignore", "bare_ignore"):
+                    # a trailing comment: no line moves
+                    want = collections.Counter((c, ln, col) for _, c, ln, col, _ in raw)
+                    got = collections.Counter((c, ln, col) for _, c, ln, col, _ in r["runs"][j + 1]["raw"])
+                    if want != got:
+                        shift_violations.append({"text": t, "trailing_at": ins, "raw_before": raw, "raw_after": r["runs"][j + 1]["raw"]})
+                elif ins is not None and len(nl) == len(lines) + 1:
                     want = collections.Counter((c, (ln + 1 if ln >= ins else ln), col) for _, c, ln, col, _ in raw)
                     got = collections.Counter((c, ln, col) for _, c, ln, col, _ in r["runs"][j + 1]["raw"])
                     if want != got:
@@ -491,6 +602,7 @@ def run(tier: str, replay: str | None = None):
         except RuntimeError as ex:
             rep.violation({"kind": "broken-correspondence", "correspondence": "Fixer.fix_step vs check_for_test(apply_changes=True, add_ignores=True)", "detail": str(ex)[-1500:]}, no_failing_input=True)
     model_out = {}
+    hist_outside = [0]
     for i, ((text, cfg), r) in enumerate(zip(iter_cases, res_a)):
         if (i, 0) not in model_steps:
             continue
@@ -505,6 +617,12 @@ def run(tier: str, replay: str | None = None):
             if nxt is None:
                 # the implementation stopped here: fixpoint (model must propose nothing), or the limit, or a broken file
                 if r["ended"] and n != 0:
+                    ok, first_bad = False, j
+            elif r["runs"][j].get("first_code") in ("unused_ignore", "bare_ignore"):
+                # the replacement applied is the report's own one (remove / strip the unused comment):
+                # built by show_errors_for_unused_ignores, outside the model (fix_step = None there)
+                hist_outside[0] += 1
+                if n != 0:
                     ok, first_bad = False, j
             elif n != 1 or files[0] != nxt:
                 ok, first_bad = False, j
@@ -569,15 +687,9 @@ def run(tier: str, replay: str | None = None):
         cont = continuation_lines(text)
         err_lines = {d[1] for d in d0}
         en = c11.enabled_names(cfg, names, dit)
-        if "unused_ignore" in en:
-            fid = "C16-unused-ignore-enabled"
-        elif bits is not None and bits["base"] and not bits["one"]:
-            fid = "C16-two-codes-one-line"
-        elif bits is not None and bits["base"] and not bits["prev"]:
-            fid = "C16-two-codes-one-line"
-        elif bits is not None and bits["base"] and not bits["pos"]:
-            fid = "C16-first-code-line"
-        elif err_lines & cont:
+        # the one class left after the repair: the reported line is inside a multi-line string literal, or
+        # itself ends in a backslash (then the comment line still goes above it)
+        if (err_lines & cont) or (bits is not None and not bits["guard"] and bits["base"]):
             fid = "C16-continuation-line"
         if fid in known and agree:
             hist["attributed_" + fid] += 1
@@ -591,7 +703,6 @@ def run(tier: str, replay: str | None = None):
                             "candidate_finding": fid, "model_agrees_with_impl": agree})
 
     # ---- part B: node replacements ------------------------------------------
-    res_b = pool(fix_job, fix_cases)
     apply_lines, apply_meta = [], []
     for (tcode, lines), r in zip(fix_cases, res_b):
         if r["error"] and not r["steps"]:
@@ -627,14 +738,21 @@ def run(tier: str, replay: str | None = None):
                     extra = {k: v for k, v in (ca - cb).items() if not (code == "unused_variable" and k[0] == "unused_variable")}
                     if extra:
                         problems.append(f"new diagnostics after the fix: {sorted(extra)}")
-                want = behaviour(intended_text(code, text, before[0][1] if before else None))
+                want = behaviour(intended_text(code, text, before[0][1] if before else None, before[0][2] if before else None))
                 got = behaviour(new)
                 if got != want:
                     problems.append(f"behaviour is not the intended one: expected {want}, got {got}")
+                if before:
+                    out_of_node = ast_change_outside_target(code, text, new, before[0][1], before[0][2])
+                    if out_of_node:
+                        problems.append("syntax tree changed outside the intended node: " + out_of_node)
                 sm = difflib.SequenceMatcher(a=text.splitlines(), b=new.splitlines(), autojunk=False)
                 blocks = [op for op in sm.get_opcodes() if op[0] != "equal"]
                 if len(blocks) != 1:
                     problems.append(f"{len(blocks)} separate blocks of lines changed")
+            # tie of C16_statement_replacement: the replacement deletes one consecutive range of lines
+            if ap is not None and ap["del"] and sorted(ap["del"]) != list(range(min(ap["del"]), max(ap["del"]) + 1)):
+                problems.append(f"the replacement deletes a non-consecutive set of lines: {ap['del']}")
             hist["fix_ok" if not problems else "fix_fail"] += 1
             # correspondence for _apply_changes_to_lines: queue the recorded Replacement for the translated function
             if exe is not None and ap is not None:
@@ -723,6 +841,7 @@ def run(tier: str, replay: str | None = None):
         iteration_cases=len(iter_cases),
         fix_cases=len(fix_cases),
         model_runs=len(model_steps),
+        steps_outside_model=hist_outside[0],
         shift_assumption_violations=len(shift_violations),
         correspondence_mismatches=len(corr_mismatch),
         apply_changes_compared=len(apply_meta),
